@@ -2,6 +2,7 @@ import PyrollModel.Handover
 import PyrollModel.EvalDriver
 import PyrollModel.Gen.C06
 import PyrollModel.HandoverGen
+import PyrollModel.Refresh
 /-
   Line-protocol driver of the C06 models.
 
@@ -25,6 +26,13 @@ import PyrollModel.HandoverGen
     I <hidden prefix> <extra root hooks> <outOwners> <previous out dict | none> <incoming dict>
                                         `Handover.initOut genReuse`: the out profile's `__dict__` after `init_solve`
                                         (entries in order)
+    R <class>                           what `obj.reevaluate_cache()` does for an object of that class (`Refresh.effects` on
+                                        the generated method bodies along the generated MRO): answers `own refresh:roll
+                                        reset:_contour_lines …` (in order), `-` for none, `no-mro` for an unknown class
+    S <class> <helper attr> <hook> <n,n,…>   consecutive solves (iterations of each) of one NEW unit object of that class
+                                        whose sub-units read `<helper>.<hook>` (`Refresh.solves` from `Refresh.fresh`; does the
+                                        helper's own method re-evaluate: from the generated `helperClass`): answers the state
+                                        index of the value read in every iteration, `a,b,c;d,e,f` (solves separated by `;`)
 -/
 namespace HandoverDriver
 open Handover Proto
@@ -68,6 +76,13 @@ end
 
 def floats (ts : List String) : Option (List Float) := ts.mapM floatOfBitsStr
 
+def showEffects (es : List Refresh.Effect) : String :=
+  if es.isEmpty then "-" else " ".intercalate (es.map fun e => match e with
+    | .own => "own"
+    | .refresh a => "refresh:" ++ a
+    | .reset a => "reset:" ++ a
+    | .unknown k => "unknown:" ++ k)
+
 def handle (line : String) : String :=
   match toks line with
   | "H" :: pfx :: extra :: d :: c :: rest =>
@@ -98,6 +113,20 @@ def handle (line : String) : String :=
       showDict (initOut genReuse (fun (k : String) => k.startsWith pfx)
         (applies (parseOwners oo) (Gen.C06.rootHooks ++ ex)) prev p1)
     | _, _, _ => "bad-op"
+  | ["R", cls] =>
+    match Refresh.mroOf Gen.C06.mros cls with
+    | [] => "no-mro"
+    | m => showEffects (Refresh.effects Gen.C06.reevalBodies m)
+  | ["S", cls, h, name, ns] =>
+    match Refresh.mroOf Gen.C06.mros cls, natList? ns with
+    | [], _ => "no-mro"
+    | m, some ns =>
+      let hcls := (Gen.C06.helperClass.find? fun p => p.1 == cls && p.2.1 == h).map (·.2.2)
+      let ho := match hcls with
+        | some hc => (Refresh.effects Gen.C06.reevalBodies (Refresh.mroOf Gen.C06.mros hc)).contains Refresh.Effect.own
+        | none => false
+      ";".intercalate ((Refresh.solves (Refresh.effects Gen.C06.reevalBodies m) h ho name ns Refresh.fresh).map showNatList)
+    | _, none => "bad-op"
   | "sum" :: name :: rest =>
     match Gen.C06.sumImpls.find? (fun p => p.1 = name), floats rest with
     | some (_, i), some xs =>
